@@ -15,7 +15,16 @@ sys.path.insert(0, os.environ.get("PYAB_SRC", "/repo/src"))
 if os.path.isdir(os.path.join(VERIF, ".deps")):
     sys.path.append(os.path.join(VERIF, ".deps"))
 
-import atheris  # noqa: E402
+try:
+    import atheris  # noqa: E402
+except ImportError:  # fresh checkout: install from the offline wheelhouse into /verif/.deps (what MANIFEST.setup_cmd does)
+    import subprocess
+
+    subprocess.run([sys.executable, "-m", "pip", "install", "-q", "--no-index", "--find-links", "/opt/veriftools/wheels",
+                    "--target", os.path.join(VERIF, ".deps"), "atheris"], check=False, stdout=subprocess.DEVNULL,
+                   stderr=subprocess.DEVNULL)
+    sys.path.append(os.path.join(VERIF, ".deps"))
+    import atheris  # noqa: E402
 
 with atheris.instrument_imports(include=["pyab_experiment"]):
     import pyab_experiment.experiment_evaluator  # noqa: F401,E402
